@@ -2,6 +2,7 @@ SPECIFICATION Spec
 CONSTANTS Dev = "serial"
  Fl = "sync"
  R = 3
+ Slack = 1
  MaxConn = 2
  MaxTime = 11
 INVARIANT MadeOncePerConnection
